@@ -22,7 +22,7 @@ RULE = ("random pipelines of 1-3 writer probes (each followed by a snapshot prob
         "distinct = distinct (plans, dtypes, schedule, layout, debug) signatures")
 ASSUMPTIONS = ["float buckets are compared by value after lossless widening to float64 (only the image dtype is pinned by the statement)",
                "a bucket not written in some step of a multi-step run must show no data (NaN) for that step"]
-REQUIRED_COUNTERS = ["debug_after_earlier_debug_run", "runs", "slices_compared", "time_labels_checked", "image_dtype_checks", "layout_pairs",
+REQUIRED_COUNTERS = ["debug_after_earlier_debug_run", "debug_exactness_checks", "runs", "slices_compared", "time_labels_checked", "image_dtype_checks", "layout_pairs",
                      "debug_pairs", "debug_nodes_compared", "scene_checks", "data_checks", "photon3d_runs"]
 TIMEOUT = {"quick": 600, "thorough": 3000}
 LEVEL_TEXT = ("Exploration by runtime monitoring: each generated run is executed by the real exposure loop; the returned "
@@ -253,8 +253,52 @@ def same_buckets(ds_a, ds_b):
     return None
 
 
+def _same(a, b):
+    if a is None or b is None:
+        return a is None and b is None
+    return a.shape == b.shape and bool(np.array_equal(a, b))
+
+
+def check_debug_exactness(rec, tree, events, case, index):
+    """A model's debug node lists a bucket if and only if that model changed it."""
+    n_steps = len(case["times"])
+    lasts = [e for e in events if e["model"] == "last"]
+    zeros = np.zeros((case["rows"], case["cols"]))
+    for step in range(n_steps):
+        start = {b: None for b in ("photon", "charge", "signal", "image")}
+        start["pixel"] = lasts[step - 1]["buckets"]["pixel"] if (case["non_destructive"] and step > 0) else zeros
+        pre = start
+        for k, w in enumerate(case["writers"]):
+            snap = next((e for e in events if e["model"] == f"s{k}" and e["step"] == step), None)
+            if snap is None:
+                return
+            post = snap["buckets"]
+            for model, before, after in ((f"w{k}", pre, post), (f"s{k}", post, post)):
+                key = f"/intermediate/time_idx_{step}/{w['group']}/{model}"
+                try:
+                    listed = set(tree[key].to_dataset().data_vars)
+                except KeyError:
+                    listed = set()
+                for b in ("photon", "charge", "pixel", "signal", "image"):
+                    x, y = before[b], after[b]
+                    if b == "charge":
+                        x = None if (x is None or not np.any(x)) else x
+                        y = None if (y is None or not np.any(y)) else y
+                    if b == "pixel":
+                        x = zeros if x is None else x
+                        y = zeros if y is None else y
+                    rec.count("debug_exactness_checks")
+                    if _same(x, y) and b in listed:
+                        rec.violation(f"C03:debug-node-lists-unchanged-bucket:{b}",
+                                      f"{key} lists '{b}' although model {model} did not change it "
+                                      f"(step {step}, non_destructive={case['non_destructive']})", case, index)
+                        return
+            pre = post
+
+
 def check_debug_nodes(rec, tree, events, case, index):
     n_steps = len(case["times"])
+    check_debug_exactness(rec, tree, events, case, index)
     for step in range(n_steps):
         for k, w in enumerate(case["writers"]):
             m = case["mixed"]
